@@ -170,6 +170,8 @@ NEEDED = ["accel=0", "|accel|<=3", "r1=0", "no reversal, forward", "no reversal,
 
 
 def run(ctx):
+    from .. import wtests
+    wtests.run(ctx)
     mon = install(ctx)
     rng = ctx.rng
     n = ctx.budget(60_000, 600_000)
@@ -186,6 +188,9 @@ def run(ctx):
         if accum == "clear" and via == "calculate_lm" and rng.random() < 0.3:
             accum = G.fresh_clear(rng)
             extra_cls.append("'clear' passed as a string built at run time")
+        if rng.random() < 0.004:
+            from .. import noise
+            noise.burst(ctx, rng, exclude=('stepper', 'legacy-stepper'))
         if rng.random() < 0.01:
             from plotink import ebb_calc as _ec
             G.failed_call(rng, _ec.calculate_lm, 4)
@@ -221,6 +226,7 @@ def run(ctx):
     ctx.need("monitor:calculate_lm evaluated", 30_000)
     ctx.need("monitor:cross-check through move_dist_lt", 20_000)
     ctx.need("oracle self-check (literal ticking)", 1000)
+    ctx.need("history: after calls to other library functions", 200)
     contracts.uninstall_all()
 
 
